@@ -223,6 +223,9 @@ func (vm *VM) open(file Term, env *Env) (string, []byte, error) {
 	case Variable:
 		return "", nil, InstantiationError(env)
 	case Atom:
+		if vm.FS == nil { // A VM without a file system: there's no such file, whatever its name.
+			return "", nil, existenceError(objectTypeSourceSink, file, env)
+		}
 		s := f.String()
 		for _, f := range []string{s, s + ".pl"} {
 			b, err := fs.ReadFile(vm.FS, f)
